@@ -240,6 +240,8 @@ class Sh:
                  's = "a\n\nb"; print strlen(s);', 'print "x\n" + "y\nz";', 'a = 1 /* comment\nover two\nlines */ + 2; print a;',
                  'print "tab\there\nnext \\" + "q";', 's = "ends with newline\n"; print strlen(s); t = "\nstarts"; print strlen(t);',
                  'function f return string is\nbegin\n  return "in\nfunction";\nend;\nprint strlen(f());', 'print "one"\n;\nprint\n"two\nthree"\n;\n']
+        # what the LF form prints follows from the text alone (a line break inside a string literal is one LF character of its value)
+        expected = {texts[0]: b"28\nline one\nline two\nline three\n", texts[1]: b"4\n", texts[2]: b"x\ny\nz\n", texts[3]: b"3\n", texts[5]: b"18\n7\n", texts[6]: b"11\n"}
         for t in texts:
             lf = t + "\n"; crlf = lf.replace("\n", "\r\n")
             for P, R in (("parse", "run"), ("cparse", "crun")):
@@ -250,8 +252,12 @@ class Sh:
                     add_violation(self.res, "C13|crash:%s" % rr.sig, "CRLF text crashed: %s" % rr.sig, {"ops": ops, "report": rr.report[-3000:]}); continue
                 rep = rr.replies
                 if not rep[1].startswith("ok"):
+                    if t in expected:
+                        self.viol("program|multiline-token|rejected", "`%s` (%s) is refused: %s" % (t[:60], P, rep[1][:100]), {"ops": ops, "source": lf})
                     bump(self.res, "crlf_text_not_accepted"); continue
                 oa = rfields(rep[3])[2].get("out"); ob = rfields(rep[7])[2].get("out") if len(rep) > 7 else None
+                if t in expected and unhx(oa or "-") != expected[t]:
+                    self.viol("program|multiline-token|value", "`%s` (%s) printed %r, the text says %r" % (t[:60], P, unhx(oa or "-")[:80], expected[t]), {"ops": ops, "source": lf}); continue
                 if not rep[5].startswith("ok") or rep[2] != rep[6] or oa != ob:
                     self.viol("program|crlf|multiline-token", "`%s` with CRLF line ends (%s): %s, program text %s, output %r vs %r with LF" % (t[:60], P, rep[5][:60], "same" if rep[2] == rep[6] else "differs", unhx(ob or "-")[:60], unhx(oa or "-")[:60]), {"ops": ops, "source": crlf}); continue
                 self.res["nontrivial"].add(case_hash(["crlfml", t, P]))
@@ -269,6 +275,9 @@ class Sh:
                 # many short statements: their one-line layout is far longer than the 1023-byte read of the file reader
                 k = r.randint(120, 400)
                 stm = ["print %d;" % (i * 7 + it) if r.random() < 0.7 else 'x%d = "s%d"; print x%d;' % (i, i, i) for i in range(k)]
+                # string literals and comments that span physical lines (every reader hands the scanner one line at a time)
+                for j in range(r.randint(1, 3)):
+                    stm.insert(r.randrange(len(stm)), r.choice(['print "first line\nsecond %d";' % j, 'print strlen("a\n\nb%d");' % j, 'print %d /* over\ntwo lines */ + 1;' % j]))
                 # a few long literals / comments so that whatever byte a reader treats specially falls inside a token
                 for j in range(r.randint(1, 4)):
                     stm.insert(r.randrange(len(stm)), r.choice(['print "%s";' % ("q" * r.randint(20, 90)), 'print %d; // %s' % (j, "c" * 40) if False else 'print strlen("%s");' % ("ab " * r.randint(5, 30)),
@@ -277,7 +286,9 @@ class Sh:
                 layouts = {"multi": "\n".join(stm) + "\n", "oneline": pad + " ".join(stm) + "\n", "oneline-noeol": pad + " ".join(stm), "crlf": "\r\n".join(stm) + "\r\n",
                            "twolines": pad + " ".join(stm[:k // 2]) + "\n" + " ".join(stm[k // 2:]) + "\n"}
                 ref = self.probe.case(["new A 0", "parse A P %s" % hx(layouts["multi"].encode()), "run A P 100000"])
-                if ref.crashed or not ref.replies[1].startswith("ok"): continue
+                if ref.crashed: continue
+                if not ref.replies[1].startswith("ok"):
+                    self.viol("cli|reference-rejected", "a program made of valid statements (one per line, some with literals/comments spanning lines) is refused by the library: %s" % ref.replies[1][:120], {"ops": [], "source": layouts["multi"][:3000]}); continue
                 want = unhx(rfields(ref.replies[2])[2].get("out", "-"))
                 for lname, text in layouts.items():
                     fn = os.path.join(work, "p.bloc"); open(fn, "wb").write(text.encode())
